@@ -64,3 +64,16 @@ Theorem C08_deepcopy_contents :
           (r_attr r') (r_attr r).
 Proof. exact deepcopy_contents. Qed.
 Print Assumptions C08_deepcopy_contents.
+
+(* stated with the ownership invariant every reachable complex meets (WorldProofs.owned): the deep
+   copy is owned by the new uid, and holds the source's attribute values entry by entry *)
+Theorem C08_deepcopy_of_an_owned_complex :
+  forall hp r uid hp' r', owned r -> r_uid r <> uid -> deepcopy_rep hp r uid = (hp', r') ->
+  (owned r' /\ r_uid r' = uid) /\
+  Forall2 (fun q p => fst q = fst p /\ fst (snd q) = uid /\ heap_get hp' (snd q) = heap_get hp (snd p))
+          (r_attr r') (r_attr r).
+Proof.
+  intros hp r uid hp' r' Ho Hne H. split; [exact (deepcopy_owned _ _ _ _ _ H)|].
+  exact (deepcopy_contents_owned _ _ _ _ _ Ho Hne H).
+Qed.
+Print Assumptions C08_deepcopy_of_an_owned_complex.
